@@ -10,6 +10,15 @@ TRUST = "trusted: sha2/sha3 compression functions (shared by library and model, 
 
 # property -> (built?, technique, level text, level note, design ref)
 TABLE = {
+ "C01": (True, "runtime monitoring: every released signature checked by the library's three verification entry points over lifetime walks and boundary counters",
+         "oracle = the library's own verifier through all three entry points, observed on every signature released by a workload of 6 hashes x W x H2/H5/H10 x 1..8 levels at boundary counters (around every subtree roll-over) and on complete lifetime walks through the real callback chain alternating sign / try_sign / try_sign_with_aux; a run that did not cross a roll-over of each upper level per hash is inconclusive",
+         TRUST, "DESIGN.md 5 (C01)"),
+ "C04": (True, "fault enumeration with a recording, scripted update callback",
+         "the grid state x callback outcome x aux variant x entry point is finite for small keys and is enumerated completely (every counter of the lifetime of [H2],[H2,H2],[H2,H2,H2],[H5] under all 6 hashes, every failing precondition); the callback recorder decides: count, argument = model successor, no release after refusal, no invocation when nothing can be signed",
+         TRUST, "DESIGN.md 5 (C04)"),
+ "C07": (True, "runtime differential monitoring: byte comparison with an independently written RFC 8554 signer + independent verifier + reference tool",
+         "every signature released on the C01 grid is compared byte for byte with the model signer run on the same key bytes and message (first differing field named), checked against the RFC length formula, verified by the model and (SHA-256/32) the hash-sigs tool; strict Appendix-B parameters are applied separately so that the recorded ls deviation (known finding) stays visible without masking anything else",
+         TRUST + "; the upper-level randomizer rule and the 55-byte PRNG block for n<32 are pinned to the tree under test", "DESIGN.md 5 (C07)"),
  "C08": (True, "runtime differential monitoring against an independent model and the reference tool",
          "differential runtime monitor: every keygen of a seeded workload over 6 hashes x W x heights x 1..8 levels x seed classes is compared byte for byte with an independent model and, for SHA-256/32, with the hash-sigs tool; child-tree derivation is observed through the embedded public keys of released signatures",
          TRUST, "DESIGN.md 5 (C08)"),
